@@ -387,6 +387,35 @@ func c15units(tier string) []mc.Unit {
 		r.AddNontrivial(cnt)
 		r.Bound("join-orders", "9 operand orders (all permutations of three spans, repeats, descending pairs) x 4 topology declarations x 3 complement modes x 2 feature types, in memory and through Write/Read")
 	}})
+	// every feature count 0..70 and counts around 100, 128, 256, 1000, under several GOMAXPROCS settings
+	us = append(us, mc.Unit{Name: "feature-counts", Weight: 30, Run: func(r *mc.Recorder) {
+		var prev c15prev
+		var cnt int64
+		counts := []int{99, 100, 101, 127, 128, 129, 255, 256, 257, 1000}
+		for n := 0; n <= 70; n++ {
+			counts = append(counts, n)
+		}
+		withProcs([]int{1, 4, 7}, func(procs int) {
+			for _, nf := range counts {
+				var x poly.Sequence
+				x.Sequence = gbSeq(240, 4)
+				x.Meta = poly.Meta{Name: "n", Locus: poly.Locus{Name: "l", MoleculeType: "DNA"}}
+				for i := 0; i < nf; i++ {
+					f := poly.Feature{Name: fmt.Sprintf("f%d", i), Type: "gene", Attributes: map[string]string{"note": strconv.Itoa(i)}}
+					a := (i * 7) % 200
+					f.SequenceLocation = poly.Location{Start: a, End: a + 5 + i%20, Complement: i%3 == 1}
+					x.AddFeature(&f)
+				}
+				cnt++
+				c15judge(r, fmt.Sprintf("%d features, GOMAXPROCS=%d", nf, procs), []string{"feature-count"}, x, &prev)
+			}
+		})
+		r.Eval(cnt)
+		r.AddStates(cnt)
+		r.AddTransitions(cnt)
+		r.AddNontrivial(cnt)
+		r.Bound("feature-counts", "every feature count 0..70 and 99..101, 127..129, 255..257, 1000, GOMAXPROCS 1, 4, 7")
+	}})
 	// integers at the edges of int32, of exact float64 representation and of int64, in every integer field
 	us = append(us, mc.Unit{Name: "integer-edges", Weight: 20, Run: func(r *mc.Recorder) {
 		var prev c15prev
